@@ -415,37 +415,44 @@ Definition check_1803 (fs : list field) : verdict :=
   end.
 
 (* ------------------------------------------------------------------------------------------------ 1804 f64toa *)
-(* the model's reading of one output text (None: not a JSON number lexeme); [memo] = the previous text and its reading
-   (the flavours almost always print the same text: dec2f64 is evaluated once per distinct text) *)
-Definition read_text (memo : list Z * option Z) (o : list Z) : option Z :=
-  if bytes_eqb o (fst memo) then snd memo else if num_okb o then lex2f64 o else None.
+(* the model's reading of one output text: None = not a JSON number lexeme; Some (b', ok) = the algorithm dec2f64 maps its exact decimal
+   value to the bits b', and ok = the SPECIFICATION of correct rounding (Num.f64_rounds_to: the value lies between the midpoints to the
+   two neighbouring doubles, ties to even) says that it rounds to the input [bits].
+   [memo] = the previous text and its reading (the flavours almost always print the same text: evaluated once per distinct text) *)
+Definition read_text (bits : Z) (memo : list Z * option (Z * bool)) (o : list Z) : option (Z * bool) :=
+  if bytes_eqb o (fst memo) then snd memo
+  else match lex_decimal o with Some d => Some (dec2f64 d, f64_rounds_to d bits) | None => None end.
 
 (* one output slot (err, text, strconv parsed flag, strconv bits) against the input bits and the model's reading [rd] of the text:
-   0 fine; 1 does not parse back to the input bits; 2 the model's dec2f64 disagrees with strconv.ParseFloat on this text *)
-Definition judge_text (bits : Z) (r : Z * list Z * Z * Z) (rd : option Z) : Z :=
+   0 fine; 1 does not parse back to the input bits; 2 the model's dec2f64 disagrees with strconv.ParseFloat (or with the model's own
+   specification of rounding) on this text *)
+Definition judge_text (bits : Z) (r : Z * list Z * Z * Z) (rd : option (Z * bool)) : Z :=
   match r with
   | (e, o, k, b) =>
     match rd with
-    | Some b' => if negb ((k =? 1) && (b' =? b)) then 2 else if (e =? 0) && (b' =? bits) then 0 else 1
+    | Some (b', ok) =>
+      if negb ((k =? 1) && (b' =? b)) then 2
+      else if negb (Bool.eqb ok (b' =? bits)) then 2
+      else if (e =? 0) && (b' =? bits) && ok then 0 else 1
     | None => 1
     end
   end.
 
 (* slots tagged with the code to report when the text does not parse back (1 native, 3 portable); 0 = all fine, 2 = model defect *)
-Fixpoint judge_texts (bits : Z) (memo : list Z * option Z) (l : list (Z * (Z * list Z * Z * Z))) : Z :=
+Fixpoint judge_texts (bits : Z) (memo : list Z * option (Z * bool)) (l : list (Z * (Z * list Z * Z * Z))) : Z :=
   match l with
   | [] => 0
   | (tag, r) :: l' =>
     let o := snd (fst (fst r)) in
-    let rd := read_text memo o in
+    let rd := read_text bits memo o in
     let c := judge_text bits r rd in
     if c =? 0 then judge_texts bits (o, rd) l' else if c =? 2 then 2 else tag
   end.
 
 (* 1804. fields: bits, mask, then for avx2, avx, sse, portable: text, err, strconv parsed flag, strconv bits.
-   Every text must be a JSON number lexeme that the model's dec2f64 reads back as exactly the input bits; the model's reading is
-   cross-checked against strconv.ParseFloat on the same text (a disagreement is a MODEL defect, 902).
-   NaN / infinities are outside "parses back" (VSkip). *)
+   Every text must be a JSON number lexeme whose exact decimal value rounds to exactly the input bits — judged by the specification of
+   correct rounding AND by the algorithm dec2f64, which must agree with each other and with strconv.ParseFloat on the same text
+   (a disagreement is a MODEL defect, 902).  NaN / infinities are outside "parses back" (VSkip). *)
 Definition check_1804 (fs : list field) : verdict :=
   match fs with
   | [FZ bits; FZ mask; FB o0; FZ e0; FZ k0; FZ b0; FB o1; FZ e1; FZ k1; FZ b1; FB o2; FZ e2; FZ k2; FZ b2; FB op; FZ ep; FZ kp; FZ bp] =>
@@ -458,7 +465,7 @@ Definition check_1804 (fs : list field) : verdict :=
 
 (* model vs strconv.ParseFloat on one lexeme: (parsed flag, bits) from strconv *)
 Definition model_agrees (l : list Z) (okp b : Z) : bool :=
-  if num_okb l then (okp =? 1) && match lex2f64 l with Some b' => b' =? b | None => false end else true.
+  if num_okb l then (okp =? 1) && lex_is_f64 l b else true.
 
 (* 1806. fields: lexeme, strconv parsed flag, strconv bits: the model's dec2f64 against strconv.ParseFloat (MODEL defect 902 on disagreement) *)
 Definition check_1806 (fs : list field) : verdict :=
